@@ -340,7 +340,10 @@ impl Drop for Env {
 }
 
 pub fn mk_env() -> Env {
-    let dir = std::path::Path::new(&verif_dir()).join("scratch").join(format!("c35-{}", std::process::id()));
+    // one directory per environment: the driver creates the next environment before it drops the old one
+    static SEQ: std::sync::atomic::AtomicU64 = std::sync::atomic::AtomicU64::new(0);
+    let seq = SEQ.fetch_add(1, std::sync::atomic::Ordering::SeqCst);
+    let dir = std::path::Path::new(&verif_dir()).join("scratch").join(format!("c35-{}-{seq}", std::process::id()));
     std::fs::create_dir_all(&dir).ok();
     Env { dir }
 }
